@@ -222,6 +222,11 @@ def build(tier, repo):
         else:
             r4.violation("op.solve:%s = %s" % (tgt, val), mm.where(sv, sv), "op.solve does not copy %s from the solver result on its straight-line path" % val, val, assigns.get(tgt))
     r4.require(7)
+    from .. import solver_rules as sr5
+    r5 = chk.rule("C02-R5", "a supplied dual start is validated like a supplied primal start (mirror-image tests)",
+                  "a certificate is never manufactured from a starting z outside the cone")
+    chk.note_analysed("start_validations", sr5.start_mirror_rule(r5, w, [("coneprog", "conelp")]))
+    r5.require(1)
     return chk
 
 
